@@ -81,9 +81,13 @@ def r1_keys(ctx):
                 % (sorted(written), sorted(req), sorted(written ^ req)))
     # root: written as a one-element list, read with [0]
     rootv = inner.values[_dict_keys(inner).index("root")] if "root" in written else None
-    yr, _ = _sub_var(parse, "root")
+    def _is_root(e):
+        if isinstance(e, ast.Name):
+            e = pat.single_def(ctx, parse, e)
+        return e is not None and \
+            text(e).replace(" ", "").replace('"', "'") == "%s['root']" % yt
     rd = [n for n in parse.own_nodes() if isinstance(n, ast.Subscript)
-          and yr and text(n.value) == yr and text(n.slice) == "0"]
+          and text(n.slice) == "0" and _is_root(n.value)]
     if isinstance(rootv, ast.List) and len(rootv.elts) == 1 and rd:
         ctx.ok("C13.R1", dump, rootv, "root written as [root], read as y_root[0]")
     else:
